@@ -90,7 +90,7 @@ def main() -> int:
     except Exception as e:  # tool crash
         print(f"infrastructure error in lean audit: {e}", file=sys.stderr)
         return common.EXIT_INFRA
-    if not aud["ok"] and not common.DRIVER_BIN.exists():
+    if not aud["ok"] and not common.driver_bin(prop).exists():
         print("infrastructure error: driver not built and build failed:\n" + "\n".join(aud["failures"]), file=sys.stderr)
         return common.EXIT_INFRA
 
